@@ -1,1 +1,409 @@
-//! auth rig (verification scaffolding, cfg(rustdds_verif))
+//! auth rig (verification scaffolding, cfg(rustdds_verif), feature `security`).
+//!
+//! Holds any number of REAL `AuthenticationBuiltin` plugins (one per
+//! participant identity) and drives them exactly the way
+//! `discovery::secure_discovery` does: validate_local_identity,
+//! validate_remote_identity, begin_handshake_request, begin_handshake_reply,
+//! process_handshake, get_shared_secret. Handshake message tokens cross the
+//! rig boundary as plain data (`Tok`), so the harness can copy, alter, replay
+//! and re-order them. A small attacker toolkit (recompute hash_c1/hash_c2,
+//! re-sign a reply / final with an arbitrary private key) builds the strongest
+//! forgeries an attacker without the CA key can make.
+
+use std::{
+  collections::HashMap,
+  panic::{catch_unwind, AssertUnwindSafe},
+};
+
+use byteorder::BigEndian;
+use bytes::Bytes;
+use chrono::Utc;
+
+use crate::{
+  dds::qos::{policy, QosPolicyBuilder},
+  discovery::{builtin_endpoint::BuiltinEndpointSet, spdp_participant_data::SpdpDiscoveredParticipantData},
+  messages::{protocol_version::ProtocolVersion, vendor_id::VendorId},
+  security::{
+    access_control::{PermissionsCredentialToken, PermissionsToken},
+    authentication::{
+      authentication_builtin::{verif_sign_with_pem, AuthenticationBuiltin},
+      Authentication, HandshakeHandle, HandshakeMessageToken, IdentityHandle, IdentityToken,
+      Sha256, ValidationOutcome,
+    },
+    BinaryProperty, DataHolder, Property,
+  },
+  serialization::{pl_cdr_adapters::PlCdrSerialize, to_vec},
+  structure::{duration::Duration, guid::GUID},
+  RepresentationIdentifier,
+};
+
+pub const CLASS_REQ: &str = "DDS:Auth:PKI-DH:1.0+Req";
+pub const CLASS_REPLY: &str = "DDS:Auth:PKI-DH:1.0+Reply";
+pub const CLASS_FINAL: &str = "DDS:Auth:PKI-DH:1.0+Final";
+
+/// A handshake message token as plain data: class id + ordered binary
+/// properties.
+#[derive(Clone, Debug, PartialEq, Eq)]
+pub struct Tok {
+  pub class_id: String,
+  pub props: Vec<(String, Vec<u8>)>,
+}
+
+impl Tok {
+  pub fn get(&self, name: &str) -> Option<&Vec<u8>> {
+    self.props.iter().find(|(n, _)| n == name).map(|(_, v)| v)
+  }
+  pub fn set(&mut self, name: &str, value: Vec<u8>) {
+    if let Some(p) = self.props.iter_mut().find(|(n, _)| n == name) {
+      p.1 = value;
+    } else {
+      self.props.push((name.to_string(), value));
+    }
+  }
+  pub fn remove(&mut self, name: &str) {
+    self.props.retain(|(n, _)| n != name);
+  }
+  fn to_token(&self) -> HandshakeMessageToken {
+    HandshakeMessageToken {
+      data_holder: DataHolder {
+        class_id: self.class_id.clone(),
+        properties: vec![],
+        binary_properties: self
+          .props
+          .iter()
+          .map(|(n, v)| BinaryProperty::with_propagate(n, Bytes::copy_from_slice(v)))
+          .collect(),
+      },
+    }
+  }
+  fn from_token(t: &HandshakeMessageToken) -> Tok {
+    Tok {
+      class_id: t.data_holder.class_id.clone(),
+      props: t
+        .data_holder
+        .binary_properties
+        .iter()
+        .map(|bp| (bp.name.clone(), bp.value.to_vec()))
+        .collect(),
+    }
+  }
+}
+
+/// Result of one plugin call.
+#[derive(Clone, Debug)]
+pub struct Res {
+  pub ok: bool,
+  /// ValidationOutcome name on success, "Err" on SecurityError, "Panic" on
+  /// panic, "NoHandle" when the discovery layer would have had nothing to call
+  pub outcome: String,
+  pub tok: Option<Tok>,
+  pub err: String,
+}
+
+fn outcome_name(o: ValidationOutcome) -> String {
+  format!("{o:?}")
+}
+
+struct Party {
+  auth: AuthenticationBuiltin,
+  local: IdentityHandle,
+  guid: GUID,
+  pdata: Vec<u8>,
+  id_token: IdentityToken,
+  remotes: HashMap<usize, IdentityHandle>,
+  hs: HashMap<usize, HandshakeHandle>,
+}
+
+#[derive(Default)]
+pub struct AuthRig {
+  parties: Vec<Party>,
+}
+
+/// Serialized participant data (PL_CDR_BE, as secure discovery produces it)
+/// announcing the given participant GUID.
+pub fn pdata_for(guid: [u8; 16]) -> Vec<u8> {
+  let d = SpdpDiscoveredParticipantData {
+    updated_time: Utc::now(),
+    protocol_version: ProtocolVersion::THIS_IMPLEMENTATION,
+    vendor_id: VendorId::THIS_IMPLEMENTATION,
+    expects_inline_qos: false,
+    participant_guid: GUID::from_bytes(guid),
+    metatraffic_unicast_locators: vec![],
+    metatraffic_multicast_locators: vec![],
+    default_unicast_locators: vec![],
+    default_multicast_locators: vec![],
+    available_builtin_endpoints: BuiltinEndpointSet::from_u32(0x3f),
+    lease_duration: Some(Duration::from_secs(20)),
+    manual_liveliness_count: 0,
+    builtin_endpoint_qos: None,
+    entity_name: None,
+    identity_token: None,
+    permissions_token: None,
+    property: None,
+    security_info: None,
+  };
+  d.to_pl_cdr_bytes(RepresentationIdentifier::PL_CDR_BE)
+    .expect("verif: pdata serialization")
+    .to_vec()
+}
+
+fn ser_props(props: &[(&str, &[u8])]) -> Vec<u8> {
+  let v: Vec<BinaryProperty> = props
+    .iter()
+    .map(|(n, b)| BinaryProperty::with_propagate(n, Bytes::copy_from_slice(b)))
+    .collect();
+  to_vec::<Vec<BinaryProperty>, BigEndian>(&v).expect("verif: property serialization")
+}
+
+fn field<'a>(t: &'a Tok, n: &str) -> &'a [u8] {
+  t.get(n).map(|v| v.as_slice()).unwrap_or(&[])
+}
+
+/// Hash(C) over the c.* fields the token carries (hash_c1 of a request,
+/// hash_c2 of a reply), computed exactly as the plugin does.
+pub fn hash_c(t: &Tok) -> Vec<u8> {
+  let ser = ser_props(&[
+    ("c.id", field(t, "c.id")),
+    ("c.perm", field(t, "c.perm")),
+    ("c.pdata", field(t, "c.pdata")),
+    ("c.dsign_algo", field(t, "c.dsign_algo")),
+    ("c.kagree_algo", field(t, "c.kagree_algo")),
+  ]);
+  Sha256::hash(&ser).as_ref().to_vec()
+}
+
+/// Attacker toolkit: make the hash field of a request / reply consistent with
+/// its (altered) c.* fields.
+pub fn fix_hash(t: &mut Tok) {
+  let h = hash_c(t);
+  if t.class_id == CLASS_REQ {
+    t.set("hash_c1", h);
+  } else if t.class_id == CLASS_REPLY {
+    t.set("hash_c2", h);
+  }
+}
+
+/// Attacker toolkit: recompute the signature of a reply / final token over the
+/// fields the token itself carries, with the given private key (PKCS#8 PEM).
+pub fn resign(t: &mut Tok, key_pem: &str) -> Result<(), String> {
+  let data = if t.class_id == CLASS_REPLY {
+    ser_props(&[
+      ("hash_c2", field(t, "hash_c2")),
+      ("challenge2", field(t, "challenge2")),
+      ("dh2", field(t, "dh2")),
+      ("challenge1", field(t, "challenge1")),
+      ("dh1", field(t, "dh1")),
+      ("hash_c1", field(t, "hash_c1")),
+    ])
+  } else if t.class_id == CLASS_FINAL {
+    ser_props(&[
+      ("hash_c1", field(t, "hash_c1")),
+      ("challenge1", field(t, "challenge1")),
+      ("dh1", field(t, "dh1")),
+      ("challenge2", field(t, "challenge2")),
+      ("dh2", field(t, "dh2")),
+      ("hash_c2", field(t, "hash_c2")),
+    ])
+  } else {
+    return Err("requests are not signed".into());
+  };
+  let sig = verif_sign_with_pem(key_pem.as_bytes(), &data).map_err(|e| e.msg)?;
+  t.set("signature", sig.to_vec());
+  Ok(())
+}
+
+/// Attacker toolkit: a final message answering `reply`, signed with `key_pem`.
+pub fn forge_final(reply: &Tok, key_pem: &str) -> Result<Tok, String> {
+  let mut t = Tok {
+    class_id: CLASS_FINAL.to_string(),
+    props: vec![],
+  };
+  for n in ["hash_c1", "dh1", "hash_c2", "dh2", "challenge1", "challenge2"] {
+    if let Some(v) = reply.get(n) {
+      t.set(n, v.clone());
+    }
+  }
+  resign(&mut t, key_pem)?;
+  Ok(t)
+}
+
+fn guarded<T>(f: impl FnOnce() -> Result<T, String>) -> Result<T, String> {
+  match catch_unwind(AssertUnwindSafe(f)) {
+    Ok(r) => r,
+    Err(_) => Err("PANIC".to_string()),
+  }
+}
+
+impl AuthRig {
+  pub fn new() -> Self {
+    Self::default()
+  }
+
+  /// validate_local_identity with `data:` URIs + set_permissions_credential_and_token.
+  pub fn add_party(
+    &mut self,
+    ca_pem: &str,
+    cert_pem: &str,
+    key_pem: &str,
+    perm_doc: &[u8],
+    candidate_guid: [u8; 16],
+  ) -> Result<usize, String> {
+    let mut auth = AuthenticationBuiltin::new();
+    let prop = |n: &str, v: String| Property {
+      name: n.to_string(),
+      value: v,
+      propagate: false,
+    };
+    let qos = QosPolicyBuilder::new()
+      .property(policy::Property {
+        value: vec![
+          prop("dds.sec.auth.identity_ca", format!("data:{ca_pem}")),
+          prop("dds.sec.auth.identity_certificate", format!("data:{cert_pem}")),
+          prop("dds.sec.auth.private_key", format!("data:{key_pem}")),
+        ],
+        binary_value: vec![],
+      })
+      .build();
+    let (_o, local, guid) = auth
+      .validate_local_identity(0, &qos, GUID::from_bytes(candidate_guid))
+      .map_err(|e| e.msg)?;
+    let cred = PermissionsCredentialToken {
+      data_holder: DataHolder {
+        class_id: "DDS:Access:PermissionsCredential".to_string(),
+        properties: vec![],
+        binary_properties: vec![BinaryProperty::with_propagate(
+          "dds.perm.cert",
+          Bytes::copy_from_slice(perm_doc),
+        )],
+      },
+    };
+    auth
+      .set_permissions_credential_and_token(
+        local,
+        cred,
+        PermissionsToken::from(DataHolder::dummy()),
+      )
+      .map_err(|e| e.msg)?;
+    let id_token = auth.get_identity_token(local).map_err(|e| e.msg)?;
+    let pdata = pdata_for(guid.to_bytes().as_ref().try_into().unwrap());
+    self.parties.push(Party {
+      auth,
+      local,
+      guid,
+      pdata,
+      id_token,
+      remotes: HashMap::new(),
+      hs: HashMap::new(),
+    });
+    Ok(self.parties.len() - 1)
+  }
+
+  pub fn guid(&self, i: usize) -> [u8; 16] {
+    self.parties[i].guid.to_bytes().as_ref().try_into().unwrap()
+  }
+
+  /// validate_remote_identity of party `j` at party `i` (as on SPDP discovery).
+  pub fn meet(&mut self, i: usize, j: usize) -> String {
+    let tok = self.parties[j].id_token.clone();
+    let prefix = self.parties[j].guid.prefix;
+    let p = &mut self.parties[i];
+    let local = p.local;
+    match guarded(|| {
+      p.auth
+        .validate_remote_identity(None, local, tok, prefix)
+        .map_err(|e| e.msg)
+    }) {
+      Ok((o, h, _)) => {
+        p.remotes.insert(j, h);
+        outcome_name(o)
+      }
+      Err(e) => format!("Err:{e}"),
+    }
+  }
+
+  fn done(r: Result<(ValidationOutcome, Option<HandshakeMessageToken>), String>) -> Res {
+    match r {
+      Ok((o, t)) => Res {
+        ok: true,
+        outcome: outcome_name(o),
+        tok: t.as_ref().map(Tok::from_token),
+        err: String::new(),
+      },
+      Err(e) => Res {
+        ok: false,
+        outcome: if e == "PANIC" { "Panic".into() } else { "Err".into() },
+        tok: None,
+        err: e,
+      },
+    }
+  }
+
+  pub fn begin_request(&mut self, i: usize, j: usize) -> Res {
+    let p = &mut self.parties[i];
+    let Some(&remote) = p.remotes.get(&j) else {
+      return Res { ok: false, outcome: "NoHandle".into(), tok: None, err: String::new() };
+    };
+    let (local, pdata) = (p.local, p.pdata.clone());
+    let r = guarded(|| {
+      p.auth
+        .begin_handshake_request(local, remote, pdata)
+        .map_err(|e| e.msg)
+    });
+    Self::done(r.map(|(o, h, t)| {
+      p.hs.insert(j, h);
+      (o, Some(t))
+    }))
+  }
+
+  pub fn begin_reply(&mut self, i: usize, j: usize, msg: &Tok) -> Res {
+    let p = &mut self.parties[i];
+    let Some(&remote) = p.remotes.get(&j) else {
+      return Res { ok: false, outcome: "NoHandle".into(), tok: None, err: String::new() };
+    };
+    let (local, pdata) = (p.local, p.pdata.clone());
+    let token = msg.to_token();
+    let r = guarded(|| {
+      p.auth
+        .begin_handshake_reply(token, remote, local, pdata)
+        .map_err(|e| e.msg)
+    });
+    Self::done(r.map(|(o, h, t)| {
+      p.hs.insert(j, h);
+      (o, Some(t))
+    }))
+  }
+
+  pub fn process(&mut self, i: usize, j: usize, msg: &Tok) -> Res {
+    let p = &mut self.parties[i];
+    let Some(&hs) = p.hs.get(&j) else {
+      return Res { ok: false, outcome: "NoHandle".into(), tok: None, err: String::new() };
+    };
+    let token = msg.to_token();
+    let r = guarded(|| p.auth.process_handshake(token, hs).map_err(|e| e.msg));
+    Self::done(r)
+  }
+
+  /// shared_secret ++ challenge1 ++ challenge2 (96 bytes) if the plugin hands one out.
+  pub fn secret(&self, i: usize, j: usize) -> Option<Vec<u8>> {
+    let p = &self.parties[i];
+    let remote = *p.remotes.get(&j)?;
+    match catch_unwind(AssertUnwindSafe(|| p.auth.get_shared_secret(remote))) {
+      Ok(Ok(s)) => {
+        let mut v = s.shared_secret.as_ref().to_vec();
+        v.extend_from_slice(s.challenge1.as_ref());
+        v.extend_from_slice(s.challenge2.as_ref());
+        Some(v)
+      }
+      _ => None,
+    }
+  }
+
+  /// diagnostic only: name of the plugin's BuiltinHandshakeState for peer j
+  pub fn state(&self, i: usize, j: usize) -> &'static str {
+    let p = &self.parties[i];
+    match p.remotes.get(&j) {
+      Some(&h) => p.auth.verif_handshake_state_name(h),
+      None => "NoRemote",
+    }
+  }
+}
